@@ -1,0 +1,60 @@
+//go:build verif
+
+// Contracts for package pass_table (checked by /verif/govc; comment-only file).
+package pass_table
+
+//@ import precis "golang.org/x/text/secure/precis"
+//@ import module "github.com/foxcpp/maddy/framework/module"
+
+// ---- C14: password authentication against the credentials table ----
+// Abstract view of the (mutable) credentials table: gHas[k] - a value is stored under key k; gCreds[k] - that value
+// ("scheme:hash"). The table calls of the four functions below are specialised to this view (assumed: the table
+// behaves as a finite map - module.MutableTable; a failed update changes nothing).
+//@ ghost var gHas Map[string,bool]
+//@ ghost var gCreds Map[string,string]
+// User-name normalisation (PRECIS UsernameCaseMapped compare key): a pure function of the name (assumed).
+//@ uninterp func precisOK(u string) bool
+//@ uninterp func precisKey(u string) string
+//@ extern func (*precis.Profile).CompareKey(p *precis.Profile, s string) (key string, err error)
+//@   ensures (err == nil) == precisOK(s)
+//@   ensures err == nil ==> key == precisKey(s)
+// Stored value "scheme:hash": schemeOf / hashOf are its two parts when it has a colon (split2ok).
+//@ uninterp func split2ok(v string) bool
+//@ uninterp func schemeOf(v string) string
+//@ uninterp func hashOf(v string) string
+//@ uninterp func noColon(s string) bool
+//@ axiom split-of-tagged: forall a string, b string :: noColon(a) ==> split2ok(a + ":" + b) && schemeOf(a + ":" + b) == a && hashOf(a + ":" + b) == b
+// Hash schemes: knownVerify(s) - a verifier is registered for scheme s; verifyOK(s, p, h) - it accepts password p for
+// hash h; computed(s, o, p) - what the scheme's generator produced for p (A-crypto: a verifier accepts exactly the
+// password the hash was computed from; registered scheme names contain no colon).
+//@ uninterp func knownVerify(s string) bool
+//@ uninterp func knownCompute(s string) bool
+//@ uninterp func verifyOK(s string, p string, h string) bool
+//@ uninterp func computed(s string, o HashOpts, p string) string
+//@ uninterp func computeOK(s string, o HashOpts, p string) bool
+//@ axiom crypto-verify-iff-same-password: forall s string, o HashOpts, p string, q string :: computeOK(s, o, p) ==> (verifyOK(s, q, computed(s, o, p)) == (p == q))
+//@ axiom scheme-names-have-no-colon: forall s string :: knownCompute(s) ==> noColon(s) && knownVerify(s)
+//@ axiom bcrypt-is-registered: knownCompute("bcrypt")
+// credOK(v, p): the stored value v accepts password p.
+//@ pure func credOK(v string, p string) bool = split2ok(v) && knownVerify(schemeOf(v)) && verifyOK(schemeOf(v), p, hashOf(v))
+
+// AuthPlain succeeds exactly when the name normalises, a value is stored under its key, and that value accepts the
+// password (no decision is taken on a lookup error).
+//@ extern func (*Auth).AuthPlain#Lookup$call(t module.Table, ctx context.Context, s string) (val string, ok bool, err error)
+//@   ensures err == nil ==> ok == gHas[s] && (ok ==> val == gCreds[s])
+//@ extern func (*Auth).AuthPlain#SplitN$call(s string, sep string, n int) []string
+//@   ensures (len(result) == 2) == split2ok(s)
+//@   ensures len(result) == 2 ==> result[0] == schemeOf(s) && result[1] == hashOf(s)
+//@ extern func (*Auth).AuthPlain#hashVerify$call(pass string, hashSalt string) error
+//@   ensures (result == nil) == verifyOK(gScheme, pass, hashSalt)
+// gScheme: the scheme whose verifier was fetched from the registry (set by the registry lookup; ghost).
+//@ ghost var gScheme string
+//@ func (*Auth).AuthPlain
+//@   prop C14
+//@   nopanic
+//@   requires a != nil && a.table != nil
+//@   modifies gScheme
+//@   ensures result == nil ==> precisOK(username) && gHas[precisKey(username)] && credOK(gCreds[precisKey(username)], password)
+//@   ensures !precisOK(username) || (gLookupErr == nil && !gHas[precisKey(username)]) ==> result != nil
+//@   ensures precisOK(username) && gLookupErr == nil && gHas[precisKey(username)] && !credOK(gCreds[precisKey(username)], password) ==> result != nil
+//@   assert-call (module.Table).Lookup : $t == a.table && $s == precisKey(username)
